@@ -1,4 +1,5 @@
 #!/bin/bash
+ROOT=$(cd "$(dirname "$0")/.." && pwd)
 # verify_seed.sh <seed-dir> <prop>   confirm a sub-agent's seeded change: applies, builds, existing tests pass,
 # demo fails with it and passes without it; then run our check against it.  All in scratch worktrees.
 dir=$(readlink -f "$1"); prop=$2
